@@ -2492,7 +2492,7 @@ def _shape(n):
     return {k: _shape(v) for k, v in sorted(n.items()) if k not in ("l", "t", "tw", "cv", "from", "ck", "elidable")}
 
 
-def forward_commits(body, f, facts):
+def forward_commits(body, f, facts, whole=None):
     """N11 build aside and commit: a member function that fills top-level locals and ends with a group of statements that
     install each of them in a member (`m_x = x;`, `m_x = std::move(x);`, `m_x.swap(x);`) - the members being mentioned
     nowhere else in the function - computes the same final state as the function that works on the members directly.  The
@@ -2501,6 +2501,15 @@ def forward_commits(body, f, facts):
     which no rule that looks at normalised bodies speaks about.  Returns the number of locals forwarded."""
     if not f.get("cls") or not isinstance(body, dict) or body.get("k") != "Block" or f.get("ctor") or f.get("dtor") or f.get("static"):
         return 0
+    if whole is None:
+        # also inside `if (this != &rhs) { ... }` and similar single guards at the top of the function
+        extra = 0
+        for st_ in body.get("s", []):
+            if isinstance(st_, dict) and st_.get("k") == "If" and st_.get("else") is None and isinstance(st_.get("then"), dict) and st_["then"].get("k") == "Block":
+                extra += forward_commits(st_["then"], f, facts, whole=body)
+        if extra:
+            return extra
+    scope = whole if whole is not None else body
     top = body.get("s", [])
     end = len(top)
     while end > 0 and isinstance(top[end - 1], dict) and (top[end - 1].get("k") == "Null" or
@@ -2577,7 +2586,7 @@ def forward_commits(body, f, facts):
     names = set(p_[0]["n"] for p_ in pairs)
     commit_ids = set(id(x) for p_ in pairs for x in walk(p_[2]))
     # the members are mentioned nowhere but in their commit; the locals nowhere after it
-    for n in walk(body):
+    for n in walk(scope):
         if id(n) in commit_ids:
             continue
         mm = member_of_this(n) if n.get("k") == "Member" else None
